@@ -105,7 +105,9 @@ def expression_precs(toks):
     return ids if cond and len(ids) == 2 else ["?"]
 
 
-CALLS = {"expression": "expr", "block": "block", "begin_scope": "begin", "end_scope": "end", "statement": "stmt",
+CALLS = {"new_compiler": "new_compiler", "finalise_compiler": "finalise", "parameter_list": "params", "make_constant": "mkconst",
+         "emit_constant_op": "constop", "function": "function",
+         "expression": "expr", "block": "block", "begin_scope": "begin", "end_scope": "end", "statement": "stmt",
          "emit_loop": "loop", "argument_list": "args", "define_variable": "define", "parse_variable": "parsevar",
          "push_loop": "push_loop", "pop_loop": "pop_loop", "push_break": "push_break", "emit_return": "return",
          "emit_constant": "const", "emit_exc_handler_pops": "excpops", "declare_variable": "declare",
@@ -176,7 +178,8 @@ def emit_seq(toks, fname):
 
 SEQ_FNS = ["and", "or", "dotdot", "index", "vector", "grouping", "interpolation", "call", "named_variable",
            "binary_assign", "if_statement", "while_statement", "break_statement", "continue_statement",
-           "expression_statement", "var_declaration", "define_variable", "end_scope", "number", "string"]
+           "expression_statement", "var_declaration", "define_variable", "end_scope", "number", "string",
+           "function", "lambda", "fn_declaration", "return_statement", "emit_return"]
 
 
 def rename_params(ts, params):
@@ -271,6 +274,26 @@ def vm_facts(toks):
     facts.append(("jump_forward", "self.ip.offset(offsetasisize)" in s))
     s = "".join(body_texts("loop_impl"))
     facts.append(("loop_backward", "self.ip.offset(-(offsetasisize))" in s))
+    # call_closure: arity = function.arity - 1, the two checks in this order with these messages; then the frame is pushed
+    s = "".join(body_texts("call_closure"))
+    facts.append(("call_arity_check", s.startswith("letarity=closure.function.arity-1;leterr=ifarg_count!=arity{")
+                  and 'ErrorKind::TypeError,"Expected {} arguments but found {}.",arity,arg_count' in s))
+    facts.append(("call_frame_limit", "}elseifself.active_fiber().frames.len()==common::FRAMES_MAX{Some(error!(ErrorKind::IndexError,\"Stack overflow.\"))" in s))
+    facts.append(("call_pushes_frame", "self.active_fiber_mut().push_call_frame(closure);self.load_frame();" in s))
+    # return_impl: result popped, the frame's open upvalues closed, frame popped, stack cut at slot_base, result pushed
+    s = "".join(body_texts("return_impl"))
+    facts.append(("return_shape", s.startswith("letresult=self.pop();self.active_fiber_mut().close_upvalues_for_frame();"
+                                                "letprev_stack_size=self.active_fiber().current_frame().unwrap().slot_base;"
+                                                "self.active_fiber_mut().frames.pop();")
+                  and s.endswith("self.load_frame();self.active_fiber_mut().stack.truncate(prev_stack_size);self.push(result);Ok(None)")))
+    # closure_impl: the closure is pushed, then one upvalue per descriptor: a captured slot of this frame or the
+    # enclosing closure's upvalue
+    s = "".join(body_texts("closure_impl"))
+    facts.append(("closure_descriptors", "self.push(Value::ObjClosure(closure.as_gc()));foriin0..upvalue_count{letis_local=self.read_byte()!=0;"
+                  "letindex=self.read_byte()asusize;" in s and "=ifis_local{self.capture_upvalue(slot_base+index)}else{" in s
+                  and ".closure.upvalues.borrow()[index]};" in s))
+    s = "".join(body_texts("close_upvalue_impl"))
+    facts.append(("close_upvalue_top", s == "letstack_size=self.stack_size();self.active_fiber_mut().close_upvalues(stack_size-1);self.pop();"))
     # into_bool: only false and nil are falsy
     vt = lex(read("value.rs"))
     o, c = fn_body(vt, "into_bool")
